@@ -141,7 +141,7 @@ func (m *ErrorMessage) UnmarshalBinary(data []byte) error {
 		return fmt.Errorf("failed to decode compact length")
 	}
 
-	if len(data) < bytesRead+int(length) {
+	if length > uint64(len(data)-bytesRead) {
 		return fmt.Errorf("data too short for error message")
 	}
 
